@@ -279,11 +279,11 @@ def word_seq(r, lim, n):
 
 
 def terms(v, sh=0):
-    """a combination of little-endian words by <<, |, +, ^ -> {(bytes, shift)} (None: something else)"""
+    """a combination of little-endian byte groups by <<, |, +, ^ -> {(byte, shift)} (None: something else)"""
     if v == 0 and not isinstance(v, bool):
         return set()
     if isinstance(v, tuple) and v and v[0] == "le":
-        return {(v[1], sh)}
+        return {(b_, sh + 8 * i_) for i_, b_ in enumerate(v[1])}
     if isinstance(v, tuple) and v and v[0] == "bits" and v[1] == "<<" and isinstance(v[3], int):
         return terms(v[2], sh + v[3])
     if isinstance(v, tuple) and v and v[0] == "bits" and v[1] in ("|", "+", "^"):
@@ -319,7 +319,7 @@ def hand_states(ctx, mname):
                             good = isinstance(v[1], tuple) and v[1][0] == "list" and \
                                 [x[1] if isinstance(x, tuple) and x[0] == "le" else x for x in v[1][1]] == ref[1]
                         elif mname == "bit64":
-                            good = terms(v[1]) == {(ref[1][0], 0), (ref[1][1], 32)}
+                            good = terms(v[1]) == terms(("le", tuple(ref[1][0]) + tuple(ref[1][1])))       # byte k of the two words at bit 8k
                         else:
                             good = v[1] == ("le", ref[1][0])
                         good = good and out["offset"] == roff and out["limit"] == rlim
